@@ -51,6 +51,9 @@ class Tok:
     def s(self, kind):
         self.n += 1
         tok = f"ZQ{self.n}{kind}"
+        if kind == "k" and self.r.pct() < 8:
+            # long keys that differ only in the middle
+            tok = "L" * 30 + tok + "R" * 30
         a, b = self.r.choice(META), self.r.choice(META)
         if self.r.coin(35):
             out = f"{a}{tok}{b}"
@@ -74,7 +77,8 @@ def gen_cond(r, tok, child_keys):
         elif c < 22:
             parts.append(Leaf("value", "dtype", "in_", kwargs={"value": G.types(r, 1, 3)}))
         elif c < 30:
-            parts.append(Leaf("value", None, "is_instance", args=tuple(G.types(r, 1, 2))))
+            # (also classes that have no spec name: "an int or null")
+            parts.append(Leaf("value", None, "is_instance", args=tuple(G.types(r, 1, 2)) + ((type(None),) if r.pct() < 20 else ())))
         elif c < 36:
             parts.append(Leaf("value", None, "keys_is_instance", args=tuple(G.types(r, 1, 2))))
         elif c < 50:
